@@ -1287,3 +1287,13 @@ Example nonvacuous_environments :
   /\ fst (step 60 (final 60 init (ops1 ++ [c])) (Render (Own 0) [([120]%N, VStr [97;60]%N false)] None None))
      = LErr UnknownFilterError None.
 Proof. vm_compute. repeat split. Qed.
+
+(** a failing render on DEFAULT_ENVIRONMENT (non-caching): raises, session identical *)
+Example nonvacuous_unchanged :
+  let s := final 60 init [FromString 0 [Incr nv_c; EmitField nv_k; Incr nv_c] []] in
+  let o := Render (Own 0) nv_data (Some 1) None in
+  is_render_like o = true
+  /\ forallb (fun E => negb (e_caching E)) (envs s) = true
+  /\ fst (step 60 s o) = PyExc OtherPyError
+  /\ fst (step 60 s (Render (Own 0) nv_data None None)) = Ok (OText [48;75;49]%N).
+Proof. vm_compute. repeat split. Qed.
